@@ -146,7 +146,9 @@ def gaussian_cases(chk, rng, n):
         s2 = np.exp(np.clip(0.5 * lv2, -20.0, 2.0))
         samp2 = np.asarray(pol2.sample(o, key), dtype=float)
         z1, z2 = (samp - mean) / std, (samp2 - m2) / s2
-        sel = (std > 1e-3) & (s2 > 1e-3) & (std < 5) & (s2 < 5)      # where standardisation is well conditioned in float32
+        # where standardisation is well conditioned in float32: (sample - mean) carries an absolute error of about ulp(|mean|), so the
+        # standardised noise is only meaningful when std is well above |mean| * 2^-23
+        sel = (std > 1e-3 + 1e-4 * np.abs(mean)) & (s2 > 1e-3 + 1e-4 * np.abs(m2)) & (std < 5) & (s2 < 5)
         if sel.any() and not np.allclose(z1[sel], z2[sel], atol=2e-3):
             chk.fail(f"C13:{kind}:sample-noise", "samples for one key are not mean + std * (the same key-determined standard noise)",
                      {"case": case, "z1": z1.tolist(), "z2": z2.tolist()})
